@@ -24,16 +24,26 @@ type bigTree struct {
 }
 
 func bigCfg(bf uint, n int, format string) *world.Config {
+	// present keys: 1..n without the multiples of 5 (so keys of every layer are present); absent
+	// probes: the multiples of 5 up to n, plus 5*bf^k beyond it (absent keys of high layers). n is chosen
+	// so that one more entry does not change the height.
 	var keys []interface{}
-	for i := 0; i < n; i++ {
-		keys = append(keys, uint(i*3+1)) // gaps: i*3+2 and i*3+3 are absent probes of various layers
+	var probes []interface{}
+	for i := 1; i <= n; i++ {
+		if i%5 == 0 {
+			probes = append(probes, uint(i))
+		} else {
+			keys = append(keys, uint(i))
+		}
+	}
+	for p := uint(5) * bf; p < 1<<20; p *= bf {
+		if p > uint(n) {
+			probes = append(probes, p)
+		}
 	}
 	c := world.UintCfg(bf, keys, 1, format, "none")
-	c.Name = fmt.Sprintf("seeded/uint x%d/bf%d/%s", n, bf, format)
-	c.Probes = nil
-	for i := 0; i < n; i += 5 {
-		c.Probes = append(c.Probes, uint(i*3+2), uint(i*3+3))
-	}
+	c.Name = fmt.Sprintf("seeded/uint 1..%d without multiples of 5/bf%d/%s", n, bf, format)
+	c.Probes = probes
 	return c
 }
 
@@ -72,10 +82,14 @@ func (bt *bigTree) load() (*mast.Mast, error) {
 // bigC16: load counts of LoadMast, Clone, Get, Insert, Delete for every key and probe.
 func bigC16(run *report.Run, acc *pairAcc) {
 	var evals int64
-	for _, spec := range []struct {
+	specs := []struct {
 		bf uint
 		n  int
-	}{{2, 64}, {3, 100}, {4, 128}, {16, 256}} {
+	}{{2, 75}, {3, 100}, {4, 150}, {16, 300}}
+	if !run.Thorough() {
+		specs = specs[:2] // the tall ones: heights 5-6, keys and probes of layers up to 5
+	}
+	for _, spec := range specs {
 		cfg := bigCfg(spec.bf, spec.n, ref.FormatBinary)
 		bt, err := buildBig(cfg, nil, nil)
 		if err != nil {
@@ -145,7 +159,7 @@ func bigC15(run *report.Run, acc *pairAcc) {
 	for _, spec := range []struct {
 		bf uint
 		n  int
-	}{{2, 64}, {4, 128}, {16, 200}} {
+	}{{2, 75}, {4, 150}, {16, 250}} {
 		cfg := bigCfg(spec.bf, spec.n, ref.FormatBinary)
 		base, err := buildBig(cfg, nil, nil)
 		if err != nil {
